@@ -473,7 +473,9 @@ class TextCanvas(Canvas):
         if not rows:
             rows = maxrow - trim_top
 
-        if not ((0 <= trim_left < maxcol) and (cols > 0 and trim_left + cols <= maxcol)):
+        if (maxcol or trim_left or cols) and not (
+            (0 <= trim_left < maxcol) and (cols > 0 and trim_left + cols <= maxcol)
+        ):  # a zero-width canvas (e.g. an empty fixed Text) has rows with nothing in them
             raise ValueError(trim_left)
         if not ((0 <= trim_top < maxrow) and (rows > 0 and trim_top + rows <= maxrow)):
             raise ValueError(trim_top)
